@@ -18,7 +18,7 @@ import inspect
 
 import z3
 
-from vlib.pyvc import Exc, Executor, Rec, SV, Unsupported, _HK, _hashable, _unhash, is_sym
+from vlib.pyvc import Exc, Executor, Rec, SV, Unsupported, _HK, _hashable, _unhash, fold_template, is_sym
 
 
 class XExecutor(Executor):
@@ -49,18 +49,32 @@ class XExecutor(Executor):
 
     # -- symbolic dictionary keys --------------------------------------------------------------------
     def _assign(self, t, v, st, frame):
-        if isinstance(t, ast.Subscript) and isinstance(t.value, ast.Name) and isinstance(st.env.get(t.value.id), dict):
-            done = False
-            for st2, key in self.ev(t.slice, st, frame):
-                if is_sym(key):
-                    cont2 = st2.env[t.value.id]
-                    cont2[_hashable(key)] = v
-                    done = True
-                    yield st2
-                else:
+        if isinstance(t, ast.Subscript):
+            # <expr>[key] = v with <expr> a concrete dict and a symbolic key: identity-keyed entry (the same treatment for a
+            # local name, an attribute of a record or a field of a NamedTuple)
+            handled = None
+            outs = []
+            for st2, cont in self.ev(t.value, st, frame):
+                if not isinstance(cont, dict):
+                    handled = False
                     break
-            if done:
+                for st3, key in self.ev(t.slice, st2, frame):
+                    if not is_sym(key):
+                        handled = False
+                        break
+                    cont3 = cont
+                    if st3 is not st2:  # the key expression forked: re-evaluate the container in the forked state
+                        cont3 = next(iter(self.ev(t.value, st3, frame)))[1]
+                    cont3[_hashable(key)] = v
+                    outs.append(st3)
+                    handled = True if handled is None else handled
+                if handled is False:
+                    break
+            if handled:
+                yield from outs
                 return
+            if outs:
+                raise Unsupported("subscript store with both symbolic and concrete keys across paths")
         yield from super()._assign(t, v, st, frame)
 
     def contains(self, cont, item, st):
@@ -116,9 +130,10 @@ class XExecutor(Executor):
             if not any(is_sym(x) or isinstance(x, Rec) for x in vals):
                 yield st2, "<f-string>" if holes else text  # only an opaque message (as in the base executor)
                 continue
-            fn = self.func("fmt:" + text, *(["obj"] * len(vals)), "obj")
-            self.templates[text] = fn
-            yield st2, SV(fn(*[self.as_obj(x) for x in vals]), "obj")
+            text2, vals2 = fold_template(n, vals)  # concrete str/int holes are part of the literal text
+            fn = self.func("fmt:" + text2, *(["obj"] * len(vals2)), "obj")
+            self.templates[text2] = fn
+            yield st2, SV(fn(*[self.as_obj(x) for x in vals2]), "obj")
 
     # -- exceptions ----------------------------------------------------------------------------------------
     def _exc_matches(self, tnode, exc: Exc, frame) -> bool:
